@@ -14,12 +14,26 @@ from ..pat import find, has, match, one
 def _str_keys_written(f: Func) -> Set[str]:
     """Constant string keys stored into dicts: d["k"] = .., {"k": ..}, d.update({"k": ..})"""
     out: Set[str] = set()
+    # dict displays that are keyword-argument packs (`kwargs = {...}` used only as `f(**kwargs)`, or `f(**{...})`): not entries
+    star_names = {k.value.id for c in iter_own(f.node) if isinstance(c, ast.Call) for k in c.keywords if k.arg is None and isinstance(k.value, ast.Name)}
+    other_uses = {x.id for x in iter_own(f.node) if isinstance(x, ast.Name) and isinstance(x.ctx, ast.Load)} - star_names
+    packs: Set[int] = set()
+    for c in iter_own(f.node):
+        if isinstance(c, ast.Call):
+            for k in c.keywords:
+                if k.arg is None:
+                    packs.update(id(d) for d in ast.walk(k.value) if isinstance(d, ast.Dict))
+        if isinstance(c, ast.Assign) and len(c.targets) == 1 and isinstance(c.targets[0], ast.Name) and c.targets[0].id in star_names:
+            uses = [x for x in iter_own(f.node) if isinstance(x, ast.Name) and x.id == c.targets[0].id and isinstance(x.ctx, ast.Load)]
+            stars = [k.value for c2 in iter_own(f.node) if isinstance(c2, ast.Call) for k in c2.keywords if k.arg is None]
+            if uses and all(any(u is s_ for s_ in stars) for u in uses):
+                packs.update(id(d) for d in ast.walk(c.value) if isinstance(d, ast.Dict))
     for n in iter_own(f.node):
         if isinstance(n, ast.Assign):
             for t in n.targets:
                 if isinstance(t, ast.Subscript) and isinstance(t.slice, ast.Constant) and isinstance(t.slice.value, str):
                     out.add(t.slice.value)
-        if isinstance(n, ast.Dict):
+        if isinstance(n, ast.Dict) and id(n) not in packs:
             for k in n.keys:
                 if isinstance(k, ast.Constant) and isinstance(k.value, str):
                     out.add(k.value)
@@ -472,7 +486,13 @@ def fmt(ctx: Ctx) -> List[Ob]:
             continue
         lp = lps[0]
         kv, vv = norm(lp.target.elts[0]), norm(lp.target.elts[1])
-        outer = [t for t in cond_texts(path_conds(ctx, f, lp)) if mapname in t or vmname in t]
+        # (a test that looks at *both* maps - "nothing to do when both are empty" - is not such an exit)
+        import re as _re
+
+        def _mentions(t: str, nm: str) -> bool:
+            return _re.search(rf"\b{_re.escape(nm)}\b", t) is not None
+
+        outer = [t for t in cond_texts(path_conds(ctx, f, lp)) if _mentions(t, mapname) != _mentions(t, vmname)]
         O(["C05", "C12"], f, f"{q}: no early exit that depends on only one of the two maps", not outer,
           f"{outer}: key map and value map are independent: with key_map off and a value map in use the values must still be translated")
         okcopy = match(f"list({dname}.items())", lp.iter) is not None or match(f"tuple({dname}.items())", lp.iter) is not None
